@@ -257,6 +257,17 @@ func TestVerifC15(t *testing.T) {
 	for u := skip; u < skip+3*86400; u += step {
 		instants = append(instants, u)
 	}
+	// the end of February in century years (leap: 2000, 2400; not leap: 1900, 2100, 2200) and in an ordinary leap
+	// year far from the grid: negative days of month count from the month's real end
+	cstep := int64(3 * 3600)
+	if thorough {
+		cstep = 1800
+	}
+	for _, y := range []int{1900, 2000, 2096, 2100, 2200, 2400} {
+		for u := time.Date(y, 2, 25, 0, 0, 0, 0, time.UTC).Unix(); u < time.Date(y, 3, 3, 0, 0, 0, 0, time.UTC).Unix(); u += cstep {
+			instants = append(instants, u)
+		}
+	}
 	// civil fields per zone
 	civ := map[string][]c15Civil{}
 	tms := make([]time.Time, len(instants))
@@ -380,7 +391,7 @@ func TestVerifC15(t *testing.T) {
 	R.AddKey("true")
 	R.AddKey("false")
 	R.Exhaustive = !timedOut
-	R.Bound = fmt.Sprintf("full product of field alphabets: %d time x %d weekday x %d day-of-month x %d month x %d year x %d location specs = %d, x %d instants (grid of %d min over 2023-12-25..2025-03-05, minute grid of +-%dmin around %d zone transitions, the 2011 Apia date-line skip); each (spec, instant) through ContainsTime(UTC value) and through Intervener.Mutes with the instant carried in Asia/Tokyo, America/New_York, +05:30 (quick: one of the three per instant)",
+	R.Bound = fmt.Sprintf("full product of field alphabets: %d time x %d weekday x %d day-of-month x %d month x %d year x %d location specs = %d, x %d instants (grid of %d min over 2023-12-25..2025-03-05, minute grid of +-%dmin around %d zone transitions, the 2011 Apia date-line skip, 25 Feb..2 Mar of 1900, 2000, 2096, 2100, 2200, 2400); each (spec, instant) through ContainsTime(UTC value) and through Intervener.Mutes with the instant carried in Asia/Tokyo, America/New_York, +05:30 (quick: one of the three per instant)",
 		len(fT), len(fW), len(fD), len(fM), len(fY), len(fL), len(fT)*len(fW)*len(fD)*len(fM)*len(fY)*len(fL), len(instants), gridStep/60, around, ntrans)
 	R.Extra["family"] = map[string]any{"specs_this_shard": nspec, "instants": len(instants), "evaluations_true": trueCount, "specs_rejected_by_parser": rejected}
 	R.Sample(map[string]any{"spec": "times: [{start_time: '09:00', end_time: '17:00'}]; days_of_month: ['-3:-1']; location: 'Australia/Lord_Howe'", "instants": len(instants)})
